@@ -471,6 +471,10 @@ func main() {
 		"workers":                       workers,
 		"not_judged_examples":           njEx,
 	}
+	if res.Extra == nil {
+		res.Extra = map[string]interface{}{}
+	}
+	runSepCases(*seed, 6000, *known, *out, res.Extra)
 	if err := res.Write(filepath.Join(*out, "result.json")); err != nil {
 		fmt.Fprintln(os.Stderr, "svgoracle:", err)
 		os.Exit(2)
